@@ -415,7 +415,11 @@ func (s *Shard) SearchPoints(searchRequest models.SearchRequest) ([]models.Searc
 				}
 				res, err := dec.Query(p)
 				if err != nil {
-					return nil, fmt.Errorf("could not select point data, %s: %w", p, err)
+					// The path runs through something that has no such field,
+					// e.g. "name.first" where name is a string or "tags.x"
+					// where tags is an array. This point has nothing to select
+					// for this property, same as a missing field.
+					continue
 				}
 				if len(res) == 0 {
 					// Didn't find anything for this property
